@@ -205,9 +205,9 @@ Fixpoint render (c : ctx) (p : pz) (t : term) {struct t} : res (str * pz) :=
         Ok (alias_if (with_alias c) c s alias, p2)
       end
   | TFunc name args sp sp_from distinct filter over noparens schema alias =>
-      (* get_special_params_sql is evaluated BEFORE the arguments *)
-      do (ofrom, p1) <- render_o c p sp_from;
-      do (sargs, p2) <- render_ts (set_with_alias false c) p1 args;
+      (* the arguments are rendered first, then get_special_params_sql *)
+      do (sargs, p1) <- render_ts (set_with_alias false c) p args;
+      do (ofrom, p2) <- render_o c p1 sp_from;
       let special := match ofrom with
                      | Some f => L "FROM " ++ f
                      | None => match sp with SpText s => s | SpNone => [] end
@@ -223,9 +223,9 @@ Fixpoint render (c : ctx) (p : pz) (t : term) {struct t} : res (str * pz) :=
       Ok (alias_if (with_alias c) c base alias, p4)
   | TTuple vs alias =>
       do (ss, p1) <- render_ts c p vs; Ok (alias_sql c (paren (join [44] ss)) alias, p1)
-  | TArray vs vid alias =>
-      match p with
-      | Some z => let '(txt, z') := create_param c z vid in Ok (txt, Some z')
+  | TArray vs vid hasterm alias =>
+      match (if hasterm then None else p) with
+      | Some z => let '(txt, z') := create_param c z vid in Ok (alias_sql c txt alias, Some z')
       | None =>
         do (ss, p1) <- render_ts c p vs;
         let values := join [44] ss in
